@@ -35,6 +35,39 @@ type caseT struct {
 	ID   int             `json:"id"`
 	F    json.RawMessage `json:"f"`
 	List []int           `json:"list"`
+	Pad  *subx.Pad       `json:"pad,omitempty"` // concrete-only padding (size-boundary sweeps)
+}
+
+// sizes measured on the written subsets (by subx.Measure, not by the library), per kind
+var (
+	sizesMu sync.Mutex
+	sizes   = map[string]map[int]int{}
+)
+
+func noteSizes(file []byte) {
+	if file == nil {
+		return
+	}
+	m := subx.Measure(file)
+	if os.Getenv("C10_SIZES") != "" { // diagnostic: every measured size
+		fmt.Fprintln(os.Stderr, "sizes", m)
+	}
+	sizesMu.Lock()
+	defer sizesMu.Unlock()
+	for k, v := range m {
+		near := false
+		for _, b := range []int{0xFF, 0xFFFF, 0x10000, 0x20000} {
+			if v >= b-8 && v <= b+8 {
+				near = true
+			}
+		}
+		if near {
+			if sizes[k] == nil {
+				sizes[k] = map[int]int{}
+			}
+			sizes[k][v]++
+		}
+	}
 }
 
 type evReset struct {
@@ -131,7 +164,8 @@ func runCase(c *caseT, b *built, first bool) [][]byte {
 	if sub == nil {
 		emit(evProj{Case: c.ID, Ev: "reread", St: "skipped", P: subx.Empty(), Msg: ""})
 	} else {
-		g, st, msg := subx.WriteRead(sub)
+		g, st, msg, file := subx.WriteReadBytes(sub)
+		noteSizes(file)
 		if g == nil {
 			emit(evProj{Case: c.ID, Ev: "reread", St: st, P: subx.Empty(), Msg: msg})
 		} else {
@@ -142,7 +176,23 @@ func runCase(c *caseT, b *built, first bool) [][]byte {
 	return out
 }
 
-func build(raw json.RawMessage) *built {
+// glyfLen returns the size of the glyf table of font.Subset(list), measured on the written file.
+func glyfLen(font *sfnt.Font, list []int) int {
+	sub, _ := doSubset(font, list)
+	if sub == nil {
+		return -1
+	}
+	_, _, _, file := subx.WriteReadBytes(sub)
+	if file == nil {
+		return -1
+	}
+	if v, ok := subx.Measure(file)["glyf"]; ok {
+		return v
+	}
+	return -1
+}
+
+func build(raw json.RawMessage, pad *subx.Pad, list []int) *built {
 	F := &subx.Font{}
 	if err := json.Unmarshal(raw, F); err != nil {
 		vio.Fatal(fmt.Errorf("bad abstract font: %v", err))
@@ -150,7 +200,31 @@ func build(raw json.RawMessage) *built {
 	canon, _ := json.Marshal(F) // the same realisation however the case file is formatted
 	h := fnv.New32a()
 	h.Write(canon)
-	font, id := subx.Build(F, h.Sum32()^uint32(vio.Seed()*2654435761))
+	salt := h.Sum32() ^ uint32(vio.Seed()*2654435761)
+	if pad != nil && pad.GlyfTotal > 0 && F.Kind == "ttf" {
+		// grow the listed simple glyphs (even numbers of instruction bytes, at most 65000 each)
+		// until the glyf table of the subset has exactly the requested size, if that is possible
+		p2 := *pad
+		p2.Instr = nil
+		f0, _ := subx.Build(F, salt, &p2)
+		need := pad.GlyfTotal - glyfLen(f0, list)
+		for _, g := range list {
+			if need <= 0 || need%2 != 0 {
+				break
+			}
+			if len(F.Comp[g]) > 0 || F.Out[g] == -3 {
+				continue
+			}
+			x := need
+			if x > 65000 {
+				x = 65000
+			}
+			p2.Instr = append(p2.Instr, []int{g, x})
+			need -= x
+		}
+		pad = &p2
+	}
+	font, id := subx.Build(F, salt, pad)
 	// identify outlines also in the form they take after Write + Read of the unsubsetted font
 	if g, st, _ := subx.WriteRead(font); st == "ok" {
 		subx.Learn(id, F, g)
@@ -183,7 +257,7 @@ func main() {
 	type group struct{ from, to int }
 	var groups []group
 	for i := range cases {
-		if i > 0 && string(cases[i].F) == string(cases[i-1].F) {
+		if i > 0 && string(cases[i].F) == string(cases[i-1].F) && cases[i].Pad == nil && cases[i-1].Pad == nil {
 			groups[len(groups)-1].to = i + 1
 		} else {
 			groups = append(groups, group{i, i + 1})
@@ -201,7 +275,7 @@ func main() {
 		go func() {
 			defer wg.Done()
 			for g := range work {
-				b := build(cases[g.from].F)
+				b := build(cases[g.from].F, cases[g.from].Pad, cases[g.from].List)
 				for i := g.from; i < g.to; i++ {
 					results[i] = runCase(&cases[i], b, i == g.from)
 				}
@@ -231,5 +305,6 @@ func main() {
 		vio.Fatal(err)
 	}
 	f.Close()
-	fmt.Printf("{\"cases\":%d,\"events\":%d,\"fonts\":%d}\n", len(cases), n, len(groups))
+	sz, _ := json.Marshal(sizes)
+	fmt.Printf("{\"cases\":%d,\"events\":%d,\"fonts\":%d,\"sizes\":%s}\n", len(cases), n, len(groups), sz)
 }
